@@ -34,6 +34,8 @@ func init() {
 		mutation{"overwrite-configured-hostname", "tun/client/tunnel.go", "		if tunnel.Hostname == \"\" {\n			if len(available) > 0 {", "		if tunnel.Hostname == \"\" || !strings.Contains(tunnel.Hostname, \".\") {\n			if len(available) > 0 {", "sync"},
 	)
 	addSelfTests("C44",
+		mutation{"removal-through-element-pointer", "tun/client/tunnel.go", "	c.closeOutdatedProxies(tunnel)\n\n	c.Configuration.Tunnels = append(c.Configuration.Tunnels[:index], c.Configuration.Tunnels[index+1:]...)", "	removed := &c.Configuration.Tunnels[index]\n	c.closeOutdatedProxies(*removed)\n\n	c.Configuration.Tunnels = append(c.Configuration.Tunnels[:index], c.Configuration.Tunnels[index+1:]...)\n	tunnel = *removed", "invalidate"},
+		mutation{"removal-through-element-copy", "tun/client/tunnel.go", "	c.closeOutdatedProxies(tunnel)\n\n	c.Configuration.Tunnels = append(c.Configuration.Tunnels[:index], c.Configuration.Tunnels[index+1:]...)", "	tunnel = c.Configuration.Tunnels[index]\n	c.closeOutdatedProxies(tunnel)\n\n	c.Configuration.Tunnels = append(c.Configuration.Tunnels[:index], c.Configuration.Tunnels[index+1:]...)", "!invalidate"},
 		mutation{"reader-without-lock", "tun/client/client.go", "	c.configMu.RLock()\n	u, ok := c.Configuration.router.Load(hostname)\n	if ok && link.GetAlpn() == protocol.Link_HTTP {\n		proxy = c.getHTTPProxy(ctx, hostname, u)\n	}\n	c.configMu.RUnlock()", "	u, ok := c.Configuration.router.Load(hostname)\n	if ok && link.GetAlpn() == protocol.Link_HTTP {\n		proxy = c.getHTTPProxy(ctx, hostname, u)\n	}", "guarded-by"},
 		mutation{"proxy-created-after-unlock", "tun/client/client.go", "	if ok && link.GetAlpn() == protocol.Link_HTTP {\n		proxy = c.getHTTPProxy(ctx, hostname, u)\n	}\n	c.configMu.RUnlock()", "	c.configMu.RUnlock()\n	if ok && link.GetAlpn() == protocol.Link_HTTP {\n		proxy = c.getHTTPProxy(ctx, hostname, u)\n	}", "guarded-by"},
 		mutation{"diff-ignores-header-host", "tun/client/tunnel.go", "			oldTunnel.ProxyHeaderHost != tunnel.ProxyHeaderHost ||\n", "", "diff-fields"},
@@ -314,6 +316,73 @@ func runC44(c *Ctx) {
 		}
 		c.Ob("invalidate", name+"#proxies-invalidated-before-router-rebuilt", fn.Decl.Pos(), ok, "the proxies of the changed tunnels are closed, then the router is rebuilt for the same set")
 	}
+	// the removed / changed tunnels handed to the invalidation and to the router rebuild are
+	// values, not pointers into Configuration.Tunnels: removing an entry shifts the slice in
+	// place (append(s[:i], s[i+1:]...)), after which &s[i] denotes the NEXT tunnel
+	nshift := 0
+	for _, fn := range c.AllFuncs("tun/client") {
+		type ptr struct {
+			v     *types.Var
+			slice string
+			at    *ast.AssignStmt
+		}
+		var ptrs []ptr
+		var shifts []struct {
+			slice string
+			at    ast.Node
+		}
+		ast.Inspect(fn.Body, func(n ast.Node) bool {
+			as, ok := n.(*ast.AssignStmt)
+			if !ok || len(as.Lhs) != 1 || len(as.Rhs) != 1 {
+				return true
+			}
+			g := fn.enclosing(as)
+			if u, ok := ast.Unparen(as.Rhs[0]).(*ast.UnaryExpr); ok && u.Op == token.AND {
+				if ix, ok := ast.Unparen(u.X).(*ast.IndexExpr); ok {
+					if _, isSlice := g.Info.Types[ix.X].Type.Underlying().(*types.Slice); isSlice {
+						if v := g.varOf(as.Lhs[0]); v != nil {
+							ptrs = append(ptrs, ptr{v, g.Prov(ix.X), as})
+						}
+					}
+				}
+			}
+			if call, ok := ast.Unparen(as.Rhs[0]).(*ast.CallExpr); ok && len(call.Args) >= 2 {
+				if id, ok := call.Fun.(*ast.Ident); ok && id.Name == "append" {
+					if sl, ok := ast.Unparen(call.Args[0]).(*ast.SliceExpr); ok && g.Prov(sl.X) == g.Prov(as.Lhs[0]) {
+						shifts = append(shifts, struct {
+							slice string
+							at    ast.Node
+						}{g.Prov(as.Lhs[0]), as})
+					}
+				}
+			}
+			return true
+		})
+		nshift += len(shifts)
+		for _, sh := range shifts {
+			g := fn.enclosing(sh.at)
+			after, _ := g.Reach(sh.at, nil, nil)
+			for _, pt := range ptrs {
+				if pt.slice != sh.slice {
+					continue
+				}
+				used := token.NoPos
+				for _, m := range after {
+					if m == ast.Node(pt.at) {
+						continue
+					}
+					ast.Inspect(m, func(x ast.Node) bool {
+						if id, ok := x.(*ast.Ident); ok && g.varOf(id) == pt.v && !used.IsValid() {
+							used = id.Pos()
+						}
+						return true
+					})
+				}
+				c.Ob("invalidate", strings.TrimPrefix(fn.Name, "tun/client.")+"#no-element-pointer-used-after-in-place-removal:"+pt.v.Name(), pt.at.Pos(), !used.IsValid(), "a pointer into "+sh.slice+" is not used after the slice was shifted in place: it then denotes the following element (the router would drop and re-add the wrong hostname and keep forwarding the removed one); used at "+c.pos(used))
+			}
+		}
+	}
+	c.Floor("in-place slice removals in tun/client", nshift, 1)
 	dr := cliFn(c, "Client", "doReload")
 	okCb := false
 	for _, lit := range dr.Lits() {
